@@ -23,7 +23,8 @@ ASSUMPTIONS = ["type text is compared modulo white space (the property says 'one
 
 OPTS = ["", " NOT NULL", " DEFAULT 1", " COMMENT 'c'", " NOT NULL DEFAULT 1", " DEFAULT 1 NOT NULL COMMENT 'c'"]
 # statements put before the table (the last one a supported table whose own type leaves '<' / '>' bookkeeping behind)
-CTX = ["", "SELECT a FROM t0 WHERE a > 5;\n", "SELECT a FROM t0 WHERE a < 5;\n", "CREATE TABLE p (m MAP<STRING,ARRAY<INT>>, n int);\n"]
+CTX = ["", "SELECT a FROM t0 WHERE a > 5;\n", "SELECT a FROM t0 WHERE a < 5;\n", "CREATE TABLE p (m MAP<STRING,ARRAY<INT>>, n int);\n",
+       "CREATE TABLE p (k int CHECK (k > 0), n int);\n", "CREATE TABLE p (k int, n int);\nALTER TABLE p ADD CONSTRAINT ck CHECK (k < 9);\n"]
 PAIR = [("decimal(10,2)", "decimal", [10, 2]), ("varchar(5)[]", "varchar[]", 5), ("MAP<STRING,INT>", "MAP<STRING,INT>", None),
         ("ARRAY<STRUCT<a:INT,b:STRING>>", "ARRAY<STRUCT<a:INT,b:STRING>>", None), ("STRUCT<a:ARRAY<INT>,b:STRING>", "STRUCT<a:ARRAY<INT>,b:STRING>", None),
         ("number(*,2)", "number", ["*", 2])]
@@ -156,7 +157,7 @@ def evaluate(case):
     if r[0] != "ok":
         return {"diffs": [diff("run", "raises:" + r[1], "result", r[2])], "outcome": "exc"}
     res = r[1]
-    ntab = 2 if case.get("ctx") == 3 else 1
+    ntab = 2 if case.get("ctx", 0) >= 3 else 1
     if len(res) != ntab or not all(is_table(e) for e in res):
         return {"diffs": [diff("result", "table-missing", "%d table(s)" % ntab, short(res, 160))], "nontrivial": True, "outcome": "missing"}
     cs = res[-1]["columns"]
